@@ -66,9 +66,10 @@ type Program struct {
 	Tolerant    []TolerantUse // uses of the unbound identifier zz
 	Failing     string        // non-empty: a generated statement that fails on its own (kind)
 	FailLine    int
-	FailMarker  *Site  // nested natural failure: a probe evaluated in the same tag just before the failing operation (tells whether it ran)
-	Broken      string // non-empty: the program contains this syntactically broken tag
-	BrokenLine  int    // ... which begins on this line of the main template
+	FailMarker  *Site    // nested natural failure: a probe evaluated in the same tag just before the failing operation (tells whether it ran)
+	Names       []string // every name the generator made up (let / loop / function variables)
+	Broken      string   // non-empty: the program contains this syntactically broken tag
+	BrokenLine  int      // ... which begins on this line of the main template
 }
 
 // TolerantUse is one place where the never-bound identifier zz was written.
@@ -119,6 +120,7 @@ type genOpts struct {
 	brokenPct   int   // probability (percent) of one syntactically broken tag at top level (the program then fails to parse)
 	brokenKinds []int // restrict broken tags to these catalogue entries (swarm)
 	noise       bool  // multi-line strings / comments between tags (C15)
+	ctxProbes   bool  // emit ck() context probes and pbd() {..} detached-root block helpers (C10 inside renders)
 	splitTags   bool  // break single-statement tags across lines at safe points (C15: the tag still begins on the same line)
 	sharedSafe  bool  // never mutate data that may live in a shared parent (always true today)
 	maxPieces   int
@@ -159,7 +161,9 @@ func (g *gen) pct(label string, p int) bool      { return uni(g.t, label, 100) <
 
 func (g *gen) fresh(prefix string) string {
 	g.nextVar++
-	return fmt.Sprintf("%s%d", prefix, g.nextVar)
+	n := fmt.Sprintf("%s%d", prefix, g.nextVar)
+	g.p.Names = append(g.p.Names, n)
+	return n
 }
 
 func (g *gen) newSite(k probeKind, class string, want kind) *Site {
@@ -844,6 +848,24 @@ func (g *gen) piece(depth int) {
 	g.text()
 	if g.o.failNested && g.p.Failing == "" && (g.nest > 0 || g.cur.name != "") && g.pct("failnested", 25) {
 		g.failingPiece()
+		return
+	}
+	if g.o.ctxProbes && g.pct("ctxprobe", 25) {
+		g.frames = 0
+		if g.pct("detached", 30) {
+			// a block helper that runs its block with a context of its OWN (a root that is not related to the
+			// render's scopes); the block only reads what that root carries
+			g.feat("ctx_detached_root_block")
+			g.tag("<%=", fmt.Sprintf("pbd(%d) {", g.intn("pbdval", 1, 9)), "%>")
+			g.cur.write("D")
+			g.tag("<%=", "bw + 1", "%>")
+			g.cur.write("E")
+			g.tag("<%", "}", "%>")
+		} else {
+			// a helper that keeps the context it is handed (whatever scope plush is in right here)
+			g.feat("ctx_retaining_probe")
+			g.tag("<%=", "ck()", "%>")
+		}
 		return
 	}
 	choice := g.intn("piece", 0, 23)
